@@ -43,14 +43,18 @@ DEFAULT_ATTRS = dict(real=True, start=['n', 0], stop=None, iter=False, min=0,
 # the class source with inspect)
 
 HEADER = r'''
+from libc.stdlib cimport exit as c03_exit
 cdef long _C03LOG[1200000]
 cdef long _C03N = 0
 cdef inline void c03ev(long a, long b, long c, long d, long e, long f) noexcept nogil:
     global _C03N
-    if _C03N < 1199990:
-        _C03LOG[_C03N] = a; _C03LOG[_C03N+1] = b; _C03LOG[_C03N+2] = c
-        _C03LOG[_C03N+3] = d; _C03LOG[_C03N+4] = e; _C03LOG[_C03N+5] = f
-        _C03N += 6
+    if _C03N >= 1199990:
+        # 200 000 calls in one evaluation of a handful of particles: the
+        # iteration loop of the generated code does not terminate
+        c03_exit(97)
+    _C03LOG[_C03N] = a; _C03LOG[_C03N+1] = b; _C03LOG[_C03N+2] = c
+    _C03LOG[_C03N+3] = d; _C03LOG[_C03N+4] = e; _C03LOG[_C03N+5] = f
+    _C03N += 6
 def c03_get():
     global _C03N
     return [_C03LOG[i] for i in range(_C03N)]
@@ -558,6 +562,8 @@ def _worker(idx, prog, variants, work):
             ce.ncalls = 0
         mod.c03_reset()
         c03h.SPY_ON = True
+        with open(os.path.join(work, 'progress_%d_%d' % (os.getppid(), idx)), 'w') as fh:
+            fh.write(str(vi))
         a_eval.compute(var['t'], var['dt'])
         c03h.SPY_ON = False
         raw = mod.c03_get()
@@ -974,6 +980,14 @@ def run_workers(items, work, nproc, timeout=600):
                     del running[k]
                 continue
             log = open(of + '.log', 'rb').read().decode(errors='replace')
+            if rc == 97:
+                try:
+                    vi = int(open(os.path.join(work, 'progress_%d_%d' % (os.getpid(), k))).read())
+                except (OSError, ValueError):
+                    vi = 0
+                outs[k] = {'idx': k, 'diverged': vi}
+                del running[k]
+                continue
             if rc == 0 and os.path.exists(of):
                 outs[k] = json.load(open(of))
                 if 'compile_error' in outs[k]:
@@ -997,6 +1011,17 @@ def run_batch(R, items, work, nproc, tag0=0):
         if 'error' in o:
             raise SystemExit('worker failed on program %d: %s' % (o['idx'], o['error']))
         prog, variants = items[o['idx']]
+        if 'diverged' in o:
+            R.count('does-not-terminate')
+            R.prop_fail(fail_key(prog, 'evaluation-does-not-terminate'),
+                        {'prog': prog, 'variant': variants[o['diverged']]},
+                        'an iterated group runs at most max_iterations passes'
+                        if not classify_wf(prog) else
+                        'the scripted convergence ends the iteration',
+                        'more than 200000 calls logged in one compute(): the generated '
+                        'iteration loop does not terminate')
+            R.case(json.dumps(prog, sort_keys=True), True, None)
+            continue
         if 'compile_error' in o:
             # the generated module does not build: the evaluation cannot run at all
             R.count('does-not-compile')
